@@ -850,9 +850,12 @@ class ArgumentParser(ParserDeprecations, ActionsContainer, ArgumentLinking, argp
             ):
                 cfg.pop(action_dest, None)
             elif isinstance(action, _ActionSubCommands):
-                cfg.pop(action_dest, None)
+                chosen = cfg.pop(action_dest, None)
                 for key, subparser in action.choices.items():
                     self._dump_cleanup_actions(cfg, subparser._actions, dump_kwargs, prefix=prefix + key + ".")
+                if isinstance(chosen, str) and not cfg.get(prefix + chosen):
+                    # a subcommand without settings (left) can not be inferred from the dump: keep its name
+                    cfg[action_dest] = chosen
             elif isinstance(action, ActionLink):
                 action = action.target[1]
             if isinstance(action, ActionTypeHint):
